@@ -242,10 +242,21 @@ fn c09_scenario(extra: u8) -> Result<(), String> {
                tb.add_extra_witness_datum(&PlutusData::new_integer(&BigInt::from_str("-5").unwrap())); }
         _ => (),
     }
+    let two_languages = extra == 8;
+    if two_languages {
+        // a second input locked by a PlutusV2 script: the language views then hold two entries, in canonical key order (V2 before V1)
+        let script2 = PlutusScript::new_v2(vec![6u8, 7, 8]);
+        let red2 = Redeemer::new(&RedeemerTag::new_spend(), &bn(1), &PlutusData::new_bytes(vec![8]), &ExUnits::new(&bn(11), &bn(21)));
+        let mut ib2 = TxInputsBuilder::new();
+        ib2.add_plutus_script_input(&PlutusWitness::new(&script, &datum, &redeemer), &TransactionInput::new(&TransactionHash::from([6u8; 32]), 0), &Value::new(&bn(100_000_000)));
+        ib2.add_plutus_script_input(&PlutusWitness::new(&script2, &PlutusData::new_bytes(vec![5]), &red2), &TransactionInput::new(&TransactionHash::from([7u8; 32]), 0), &Value::new(&bn(100_000_000)));
+        tb.set_inputs(&ib2);
+    }
     let mut cm = Costmdls::new();
     let mut model = CostModel::new();
     for i in 0..4 { model.set(i, &Int::new_i32(100 + i as i32)).unwrap(); }
     cm.insert(&Language::new_plutus_v1(), &model);
+    if two_languages { cm.insert(&Language::new_plutus_v2(), &model); }
     tb.calc_script_data_hash(&cm).map_err(|_| format!("{}: calc_script_data_hash failed", tag))?;
     let ws = tb_witness_set(&tb)?;
     let body_hash = tb_script_data_hash(&tb)?;
@@ -253,6 +264,7 @@ fn c09_scenario(extra: u8) -> Result<(), String> {
     let mut used = Costmdls::new();
     let v1 = Language::new_plutus_v1();
     used.insert(&v1, &cm.get(&v1).unwrap());
+    if two_languages { let v2 = Language::new_plutus_v2(); used.insert(&v2, &cm.get(&v2).unwrap()); }
     let expected = hash_script_data(&ws.redeemers().unwrap_or(Redeemers::new()), &used, ws.plutus_data());
     if expected.to_bytes() != body_hash.to_bytes() {
         return Err(format!("{}: script data hash in the body differs from the hash derived from the emitted witness set", tag));
@@ -271,7 +283,11 @@ fn c09_scenario(extra: u8) -> Result<(), String> {
             p = end;
         }
     }
-    let view_v1: Vec<u8> = vec![0xa1, 0x41, 0x00, 0x4a, 0x9f, 0x18, 100, 0x18, 101, 0x18, 102, 0x18, 103, 0xff];
+    let view_v1: Vec<u8> = if two_languages {
+        vec![0xa2, 0x01, 0x84, 0x18, 100, 0x18, 101, 0x18, 102, 0x18, 103, 0x41, 0x00, 0x4a, 0x9f, 0x18, 100, 0x18, 101, 0x18, 102, 0x18, 103, 0xff]
+    } else {
+        vec![0xa1, 0x41, 0x00, 0x4a, 0x9f, 0x18, 100, 0x18, 101, 0x18, 102, 0x18, 103, 0xff]
+    };
     let mut pre = f5.ok_or(format!("{}: no redeemers in the emitted witness set", tag))?;
     if let Some(d) = f4 { pre.extend(d); }
     pre.extend(view_v1);
@@ -359,9 +375,9 @@ fn c09_bytes_variant_scenario() -> Result<(), String> {
 pub fn c09_battery<S: Src>(_s: &mut S) {
     let mut failures = Vec::new();
     if let Err(e) = c09_bytes_variant_scenario() { failures.push(e); }
-    for extra in 0..8u8 { if let Err(e) = c09_scenario(extra) { failures.push(e); } }
+    for extra in 0..9u8 { if let Err(e) = c09_scenario(extra) { failures.push(e); } }
     for extra in 0..3u8 { if let Err(e) = c18_size_scenario(extra) { failures.push(e); } }
-    assert!(failures.is_empty(), "{} of 8 script-data-hash scenarios violate the property; first: {}", failures.len(), failures[0]);
+    assert!(failures.is_empty(), "{} of 9 script-data-hash scenarios violate the property; first: {}", failures.len(), failures[0]);
 }
 
 // ---------------------------------------------------------------- C07: outputs created by the balancing step meet their minimum ADA
